@@ -18,10 +18,15 @@
                            hypothesis are kept, their hypothesis-free versions are the ..._unbounded theorems
      circ_wf c             every multi-qubit gate of the circuit acts on exactly two distinct qubits (Proofs/CutFinderCirc.v)
      spec_within i         some assignment that meets the width limit costs at most max_gamma ("max_gamma >= optimum")
-     gammas_ok_in i        every gate gamma of the request is >= 1 (true for kappa of every QPD basis: C15; monitored) *)
+     circ_nodup c          no multi-qubit instruction uses a qubit twice (weaker than circ_wf; Qiskit's own CircuitError
+                           "duplicate qubit arguments").  That every multi-qubit gate acts on exactly TWO qubits is no longer a
+                           hypothesis: it follows from find_cuts_full = Val r (c08_result_two_qubit)
+     gammas_ok_in i        every gate gamma of the request is >= 1; follows from the executable check gtab_ge1 of the gate table
+                           (c08_gammas_from_table), which the Coq case checker evaluates on every generated case
+     gtab_ge1 t            every kappa in the gate table t is >= 1 (Model/CutFinderTable.v; kappa of every QPD basis: C15) *)
 From Coq Require Import QArith String.
-From CKT Require Import Model.CutFinder Proofs.CutFinderCirc Proofs.BestFirstP Proofs.BestFirstSpec Proofs.BestFirstFuel
-  Proofs.BestFirstExchangeFinal Extracted.Facts.
+From CKT Require Import Model.CutFinder Model.CutFinderTable Proofs.CutFinderSpec Proofs.CutFinderCirc Proofs.BestFirstP
+  Proofs.BestFirstSpec Proofs.BestFirstFuel Proofs.BestFirstExchangeFinal Proofs.BestFirstRefuse Extracted.Facts.
 Close Scope Q_scope.
 
 (* ---- (1) every action multiplies gamma_UB by a factor >= 1 ---- *)
@@ -65,6 +70,18 @@ Theorem c08_frontier_invariant : forall tape fa max_gamma max_backjumps s0,
   (r = None -> upperbound b' = upperbound b).
 Proof. exact pass_loop_inv. Qed.
 
+(* the glue between the passes: the invariant of LOCutsOptimizer.optimize's repeat-until-None loop around
+   CutOptimization.optimization_pass (DInv: the frontier invariant of the engine, every collected goal is a goal of the search
+   space or the greedy incumbent, the incumbent bounds the upper bound, backjump and bound accounting carried across passes) is
+   preserved by the whole driver loop; when the loop ends a goal/incumbent has been returned, and an unrestricted search has set
+   the flag *)
+Theorem c08_driver_invariant : forall tape fa max_gamma max_backjumps s0, gammas_ok (fa_gates fa) -> (0 <= cost s0)%Q ->
+  forall passes fuel co acc co' acc', DInv fa s0 co acc ->
+  driver_loop tape fa max_gamma max_backjumps passes fuel co acc = Val (co', acc') ->
+  DInv fa s0 co' acc' /\ co_returned co' = true /\ co_greedy co' = co_greedy co /\
+  (unrestricted fa max_gamma max_backjumps s0 -> min_reached (co_engine co') = true).
+Proof. exact driver_loop_inv. Qed.
+
 (* ---- (3) flag soundness ---- *)
 (* relative to the guarded search space, unbounded *)
 Theorem c08_flag_sound_guarded : forall fuel i r, gammas_ok_in i -> find_cuts_full fuel i = Val r ->
@@ -95,13 +112,31 @@ Theorem c08_pruning_sound_request : forall i, gammas_ok_in i -> circ_wf (fi_circ
   pruning_sound_for (fa_gates (fa_of i)) (fi_gate_lo i) (fi_wire_lo i) (fi_W i) (fi_max_gamma i) (nq_of i).
 Proof. exact pruning_sound_request. Qed.
 
+(* ---- (3b) hypotheses derived from the model ---- *)
+(* a value returned by find_cuts proves that every multi-qubit gate acts on exactly two qubits: the returned state is a goal
+   reached from level 0, a path visits every level, and next_states raises ValueError at the level of a wider gate *)
+Theorem c08_result_two_qubit : forall fuel i r, gammas_ok_in i -> find_cuts_full fuel i = Val r ->
+  forall g, In g (fa_gates (fa_of i)) -> length (g_qubits g) = 2.
+Proof. exact result_two_qubit. Qed.
+
+(* refusal: a circuit with a multi-qubit gate on other than two qubits never yields a result *)
+Theorem c08_wide_gate_no_result : forall fuel i, gtab_ge1 (fi_gtab i) = true ->
+  (exists x, In x (fi_circ i) /\ is_multi x = true /\ length (iqs x) <> 2) ->
+  forall r, find_cuts_full fuel i <> Val r.
+Proof. exact wide_gate_no_result_table. Qed.
+
+(* gate gammas >= 1 is a property of the gate table handed to the model *)
+Theorem c08_gammas_from_table : forall i, gtab_ge1 (fi_gtab i) = true -> gammas_ok_in i.
+Proof. exact gtab_gammas_ok. Qed.
+
 (* flag soundness against the specification without any hypothesis on the search space: a reported minimum is the
-   minimum over all assignments of permitted kinds that meet the width limit *)
-Theorem c08_flag_sound_unbounded : forall fuel i r, gammas_ok_in i -> circ_wf (fi_circ i) ->
+   minimum over all assignments of permitted kinds that meet the width limit.  Hypotheses: the table check and "no qubit
+   twice in one instruction" only *)
+Theorem c08_flag_sound_unbounded : forall fuel i r, gtab_ge1 (fi_gtab i) = true -> circ_nodup (fi_circ i) ->
   find_cuts_full fuel i = Val r -> md_minimum_reached (fr_meta r) = true ->
   forall A c, assignment_cost (nq_of i) (fi_W i) (fi_gate_lo i) (fi_wire_lo i) (sgates_of (fa_gates (fa_of i))) A = Some c ->
   (md_overhead (fr_meta r) <= c * c)%Q.
-Proof. exact flag_sound_unbounded. Qed.
+Proof. exact flag_sound_table. Qed.
 
 (* against the specification; the hypothesis pruning_sound_for is c08_pruning_sound for this request *)
 Theorem c08_flag_sound : forall fuel i r, gammas_ok_in i ->
@@ -174,16 +209,16 @@ Theorem c08_seed_independent_spec : forall fuel1 fuel2 i t1 t2 r1 r2, gammas_ok_
 Proof. exact seed_independent_spec. Qed.
 
 (* ... and without that hypothesis, unbounded *)
-Theorem c08_unrestricted_unbounded : forall fuel i r, gammas_ok_in i -> circ_wf (fi_circ i) ->
+Theorem c08_unrestricted_unbounded : forall fuel i r, gtab_ge1 (fi_gtab i) = true -> circ_nodup (fi_circ i) ->
   find_cuts_full fuel i = Val r -> fi_max_backjumps i = None -> spec_within i ->
   md_minimum_reached (fr_meta r) = true.
-Proof. exact unrestricted_unbounded. Qed.
+Proof. exact unrestricted_table. Qed.
 
-Theorem c08_seed_independent_unbounded : forall fuel1 fuel2 i t1 t2 r1 r2, gammas_ok_in i -> circ_wf (fi_circ i) ->
+Theorem c08_seed_independent_unbounded : forall fuel1 fuel2 i t1 t2 r1 r2, gtab_ge1 (fi_gtab i) = true -> circ_nodup (fi_circ i) ->
   fi_max_backjumps i = None -> spec_within i ->
   find_cuts_full fuel1 (with_tape i t1) = Val r1 -> find_cuts_full fuel2 (with_tape i t2) = Val r2 ->
   (md_overhead (fr_meta r1) == md_overhead (fr_meta r2))%Q.
-Proof. exact seed_independent_unbounded. Qed.
+Proof. exact seed_independent_table. Qed.
 
 (* ... and on the finite domain by enumeration *)
 Theorem c08_unrestricted_bounded : forall fuel i r lab c used, In (c, used) (circuits_upto 4 [3%Q; 7%Q] 3) ->
@@ -259,6 +294,35 @@ Proof.
   intros x [<-|[<-|[]]] _; (split; [reflexivity|]); repeat constructor; cbn; intuition discriminate.
 Qed.
 
+(* the driver invariant holds when CutOptimization has been initialised (so c08_driver_invariant applies to every run) *)
+Example c08_ex_driver : exists co,
+  cutopt_init (fun _ => 0%Q) (fa_of (f3_input 3 (fun _ => 0%Q))) 3 (nq_of (f3_input 3 (fun _ => 0%Q))) = Val co /\
+  DInv (fa_of (f3_input 3 (fun _ => 0%Q))) (start_of (f3_input 3 (fun _ => 0%Q))) co [].
+Proof.
+  destruct (cutopt_init (fun _ => 0%Q) (fa_of (f3_input 3 (fun _ => 0%Q))) 3 (nq_of (f3_input 3 (fun _ => 0%Q)))) as [co| | |] eqn:E;
+    try (vm_compute in E; discriminate).
+  exists co. split; [reflexivity|]. exact (proj1 (cutopt_init_inv _ _ _ _ _ c08_ex_gammas E)).
+Qed.
+
+Example c08_ex_circ_nodup : circ_nodup (fi_circ (f3_input 3 (fun _ => 0%Q))).
+Proof. exact (circ_wf_nodup _ c08_ex_circ_wf). Qed.
+
+Example c08_ex_gtab : gtab_ge1 (fi_gtab (f3_input 3 (fun _ => 0%Q))) = true.
+Proof. reflexivity. Qed.
+
+(* the refusal theorem is not vacuous: cx(0,1); ccx(0,1,2) satisfies its hypotheses, and the model raises ValueError *)
+Definition wide_input : fc_input :=
+  mkIn 3 0 [mkI (Gate 0) [0; 1] []; mkI (Gate 2) [0; 1; 2] []]
+       [(0, (3%Q, Qpd2 0 None (Some (0, None))))] 2 true true 1024 None (fun _ => 0%Q).
+
+Example c08_ex_wide : gtab_ge1 (fi_gtab wide_input) = true /\
+  (exists x, In x (fi_circ wide_input) /\ is_multi x = true /\ length (iqs x) <> 2) /\
+  find_cuts_full 40 wide_input = Ref.
+Proof.
+  split; [reflexivity|]. split; [|vm_compute; reflexivity].
+  exists (mkI (Gate 2) [0; 1; 2] []). split; [right; left; reflexivity|]. split; [reflexivity|discriminate].
+Qed.
+
 Example c08_ex_spec_within : spec_within (f3_input 3 (fun _ => 0%Q)).
 Proof. exists [CutGate; Leave], (1 * 3 * 1)%Q. split; [reflexivity|discriminate]. Qed.
 
@@ -288,6 +352,10 @@ Print Assumptions c08_flag_sound.
 Print Assumptions c08_pruning_sound.
 Print Assumptions c08_pruning_sound_request.
 Print Assumptions c08_flag_sound_unbounded.
+Print Assumptions c08_result_two_qubit.
+Print Assumptions c08_driver_invariant.
+Print Assumptions c08_wide_gate_no_result.
+Print Assumptions c08_gammas_from_table.
 Print Assumptions c08_unrestricted_unbounded.
 Print Assumptions c08_seed_independent_unbounded.
 Print Assumptions c08_pruning_sound_bounded.
